@@ -60,7 +60,10 @@ func report(eng *Engine, prop, tier string, seed int, verif string, results []*f
 			}
 			continue
 		}
-		fr := funcReport{Name: shortPkg(r.c.Pkg) + "." + r.c.FuncName, Pos: r.fv.posString(r.fn.Pos()), Unsupported: r.fv.unsupported, Unmodelled: sortedKeys(r.fv.unmodelled)}
+		fr := funcReport{Name: shortPkg(r.c.Pkg) + "." + r.c.FuncName, Unsupported: r.fv.unsupported, Unmodelled: sortedKeys(r.fv.unmodelled)}
+		if r.fn != nil {
+			fr.Pos = r.fv.posString(r.fn.Pos())
+		}
 		relevant := false
 		for _, o := range r.fv.obls {
 			if !oblServes(o, prop) {
@@ -279,10 +282,16 @@ func replayConfirmed(path string) bool { return false }
 func writeReplay(dir, prop string, o *Obligation, r *fres, prelude string, eng *Engine) string {
 	os.MkdirAll(dir, 0o755)
 	base := filepath.Join(dir, prop+"-"+safeFile(o.Name))
-	q := buildQuery(prelude, r.fv, o) + "(check-sat)\n(get-model)\n"
-	os.WriteFile(base+".smt2", []byte(q), 0o644)
+	if r.fn != nil {
+		q := buildQuery(prelude, r.fv, o) + "(check-sat)\n(get-model)\n"
+		os.WriteFile(base+".smt2", []byte(q), 0o644)
+	}
 	var b strings.Builder
-	fmt.Fprintf(&b, "failed obligation: %s\nproperty: %s\nfunction: %s (%s)\nkind: %s\nsource position: %s\n", o.Name, prop, o.Func, r.fv.posString(r.fn.Pos()), o.Kind, o.Pos)
+	fpos := ""
+	if r.fn != nil {
+		fpos = r.fv.posString(r.fn.Pos())
+	}
+	fmt.Fprintf(&b, "failed obligation: %s\nproperty: %s\nfunction: %s (%s)\nkind: %s\nsource position: %s\n", o.Name, prop, o.Func, fpos, o.Kind, o.Pos)
 	if o.Text != "" {
 		fmt.Fprintf(&b, "clause: %s\n", o.Text)
 	}
